@@ -148,6 +148,25 @@ def run_backends(case):
             return ev
         tri("pagerank_edges", pagerank_edges, (n, E2), {"damping": dp / dq, "tol": t6 * 1e-6, "max_iter": mi}, p_short)
         same[-1]["tol6"] = t6
+    # ---- call history on the same objects: one edge is replaced IN PLACE in the very lists used above (same identity, same
+    # length), then every function is called again; only the agreement of the three back-ends is checked for these calls
+    if E2:
+        k = case.get("mut_index", len(E2) // 2) % len(E2)
+        u, v = E2[k]
+        nu, nv = (v, u) if u != v else (u, (v + 1) % n)
+        E2[k] = (nu, nv)
+        E3[k] = (nu, nv, E3[k][2])
+        nonneg2 = all(w >= 0 for _, _, w in E3)
+        tri("bfs_edges", bfs_edges, (n, E2, src), {}, p_reach("bfs_edges"))
+        tri("bfs_edges", bfs_edges, (n, E2, src), {"target": dst}, p_target("bfs_edges", [dst], 1))
+        tri("dfs_edges", dfs_edges, (n, E2, src), {}, p_reach("dfs_edges"))
+        tri("strongly_connected_components_edges", strongly_connected_components_edges, (n, E2), {}, p_scc)
+        tri("topological_sort_edges", topological_sort_edges, (n, E2), {}, p_topo)
+        tri("bellman_ford", bellman_ford, (src, E3, n), {}, p_all("bellman_ford"))
+        tri("floyd_warshall", floyd_warshall, (n, E3), {"directed": True}, p_fw(True))
+        tri("kruskal", kruskal, (n, E3), {"allow_forest": True}, p_kruskal(True))
+        if nonneg2:
+            tri("dijkstra_edges", dijkstra_edges, (n, E3, src), {}, p_all("dijkstra_edges"))
     for ev in paths_ev:
         ev.setdefault("solver", "worker")
     return {"same": same,
